@@ -85,6 +85,12 @@ Check (C12_back_to_back_not_mixed : forall ip_mtu bufsize id0 nsocks ops,
           train_ok ip_mtu (fr_ident (eg_fr st)) 0
                    (map snd cur ++ f4_drain fuel ip_mtu (eg_fr st)) (snd d)))).
 
+Check (C12_no_socket_packet_inside_train : forall ip_mtu bufsize id0 nsocks ops,
+  f4_hdr + 8 <= ip_mtu ->
+  let '(st, out) := eg_run ip_mtu (eg_init bufsize id0 nsocks) ops in
+  wire_ok (ops_replies ops) false out /\
+  train_state false out = negb (fr_finished (eg_fr st))).
+
 Check (C12_dropped_packet_changes_nothing : forall ip_mtu ident fr hwst d,
   let '(fr', hw', out, r) := eg_dispatch_ip ip_mtu ident fr hwst d in
   Forall (fun f => fst f = fst d) out /\
@@ -134,6 +140,12 @@ Check (C12_example_two_neighbours :
                  hd 0 (p_payload (snd f))))
       (snd (eg_run 562 (eg_init cfg_FRAGMENTATION_BUFFER_SIZE 7 1) c12_two_neighbours_ops)) =
   [(1, 7, 0, true, 536, 17); (1, 7, 536, true, 536, 17); (1, 7, 1072, false, 336, 17)]).
+
+Check (C12_example_small_datagram_does_not_overtake :
+  map (fun f => (p_is_fragment (snd f), p_offset (snd f), zlen (p_payload (snd f)), hd 0 (p_payload (snd f))))
+      (snd (eg_run 576 (eg_init cfg_FRAGMENTATION_BUFFER_SIZE 7 1) c12_overtake_ops)) =
+  [(true, 0, 552, 17); (true, 552, 552, 17); (true, 1104, 304, 17);
+   (true, 0, 552, 34); (true, 552, 552, 34); (true, 1104, 104, 34); (false, 0, 18, 51)]).
 
 Check (C12_example_permuted_duplicate :
   map (fun f => (fi_offset f, fi_mf f, zlen (fi_payload f))) c12_ex_frags =
